@@ -194,7 +194,7 @@ def main(argv):
     if fail_closed:
         sys.stderr.write('CHECK BROKEN (fail closed, no verdict) property=%s: %s\n' % (prop, fail_closed))
         return 2
-    if floors_bad:
+    if floors_bad and not nviol:
         sys.stderr.write('CHECK BROKEN (instance count below floor, no verdict) property=%s: %s\n' % (prop, '; '.join(floors_bad)))
         return 2
     print('%s %s: %d rules, %d obligations, %d held, %d known findings, %d violations (%.2fs)' % (
